@@ -145,6 +145,11 @@ def _worker(job):
                                 pack_size_target=target)
             data = content(size, kind)
             case = {'wpath': wpath, 'compress': compress, 'size': size, 'cfg': list(cfg), 'kind': kind}
+            # a second, long-open handle whose index snapshot predates the store (read paths stale_*)
+            stale = None
+            if any(r.startswith('stale_') for r in rpaths):
+                stale = Container(folder)
+                stale.count_objects()
             try:
                 key = store(cont, wpath, compress, data, work)
                 if key != hashlib.new(hash_type, data).hexdigest():
@@ -152,11 +157,14 @@ def _worker(job):
                 for rpath in rpaths:
                     if rpath == 'stream_1' and size > 70000:
                         continue
-                    got, reported = read(cont, rpath, key)
+                    if rpath.startswith('stale_'):
+                        got, reported = read(stale, rpath[6:], key)
+                    else:
+                        got, reported = read(cont, rpath, key)
                     done += 1
                     if got is not None and got != data:
                         failures.append({**case, 'rpath': rpath, 'what': f'read back {len(got)} bytes that differ from the {size} stored'})
-                    if got is None and rpath != 'meta':
+                    if got is None and not rpath.endswith('meta'):
                         failures.append({**case, 'rpath': rpath, 'what': 'object not returned'})
                     if reported is not None and reported != size:
                         failures.append({**case, 'rpath': rpath, 'what': f'reported size {reported} != {size}'})
@@ -164,6 +172,8 @@ def _worker(job):
                 failures.append({**case, 'what': f'raised {type(exc).__name__}: {exc}'[:300]})
             finally:
                 cont.close()
+                if stale is not None:
+                    stale.close()
             import shutil  # pylint: disable=import-outside-toplevel
             shutil.rmtree(folder, ignore_errors=True)
     return done, failures
